@@ -86,6 +86,7 @@ def run(tier):
     plans = [
         {"name": "int-str", "kinds": {"x": "int", "y": "string", "w": "int"}, "sort": ["x", "y"]},
         {"name": "u64-dt", "kinds": {"x": "u64s", "y": "datetime", "w": "int"}, "sort": ["x", "y"]},
+        {"name": "big-str", "kinds": {"x": "int3", "y": "string2", "w": "int"}, "sort": ["x", "y"]},
     ]
     if not q:
         plans.append({"name": "int2-str2", "kinds": {"x": "int2", "y": "string2", "w": "int"}, "sort": ["x", "y"]})
